@@ -232,28 +232,22 @@ FAMILY = {
         "module": "MC_binding",
         "quick": dict(Deposits="{0, 2, 4}", QosSet="{1}", Caps="{3}", Timeouts="{1}", Freqs="{0}", Totals="{1}",
                       Dts="{2}", Thresholds="{1}", Kinds='{"valid"}', MaxHeight=3, MaxCtx=0, MaxBatch=1),
-        "thorough": dict(Deposits="{0, 2, 4}", QosSet="{1, 3}", Caps="{3}", Timeouts="{1}", Freqs="{0}", Totals="{1}",
+        "thorough": dict(Deposits="{0, 2, 4, 6}", QosSet="{1, 3}", Caps="{3}", Timeouts="{1}", Freqs="{0}", Totals="{1}",
                          Dts="{1, 2}", Thresholds="{1}", Kinds='{"valid"}', MaxHeight=4, MaxCtx=0, MaxBatch=1),
-        "deep": dict(Deposits="{0, 2, 4, 6}", QosSet="{1, 3}", Caps="{3}", Timeouts="{1}", Freqs="{0}", Totals="{1}",
-                     Dts="{1, 2}", Thresholds="{1}", Kinds='{"valid"}', MaxHeight=4, MaxCtx=0, MaxBatch=1),
     },
     "lifecycle": {
         "module": "MC_lifecycle",
         "quick": dict(Deposits="{0}", QosSet="{1}", Caps="{3}", Timeouts="{1, 2}", Freqs="{0, 3}", Totals="{1, 2}",
                       Dts="{1}", Thresholds="{1, 2}", Kinds='{"valid", "bad", "none"}', MaxHeight=4, MaxCtx=1, MaxBatch=3),
-        "thorough": dict(Deposits="{0}", QosSet="{1}", Caps="{3}", Timeouts="{1, 2}", Freqs="{0, 3}", Totals="{1, 2}",
-                         Dts="{1}", Thresholds="{1, 2}", Kinds='{"valid", "bad", "none"}', MaxHeight=6, MaxCtx=1, MaxBatch=3),
-        "deep": dict(Deposits="{0}", QosSet="{1}", Caps="{3}", Timeouts="{1, 2}", Freqs="{0, 3}", Totals="{1, 2}",
-                     Dts="{1}", Thresholds="{2}", Kinds='{"valid", "bad"}', MaxHeight=4, MaxCtx=2, MaxBatch=3),
+        "thorough": dict(Deposits="{0}", QosSet="{1}", Caps="{3}", Timeouts="{1, 2}", Freqs="{0, 3}", Totals="{1, 2, 3}",
+                         Dts="{1}", Thresholds="{1, 2}", Kinds='{"valid", "bad", "none"}', MaxHeight=8, MaxCtx=1, MaxBatch=4),
     },
     "money": {
         "module": "MC_money",
         "quick": dict(Deposits="{0}", QosSet="{1}", Caps="{1, 3}", Timeouts="{1}", Freqs="{0}", Totals="{2}",
                       Dts="{1}", Thresholds="{1}", Kinds='{"valid", "bad"}', MaxHeight=3, MaxCtx=1, MaxBatch=2),
-        "thorough": dict(Deposits="{0}", QosSet="{1}", Caps="{1, 3}", Timeouts="{1}", Freqs="{0}", Totals="{2}",
-                         Dts="{1}", Thresholds="{1}", Kinds='{"valid", "bad"}', MaxHeight=5, MaxCtx=1, MaxBatch=2),
-        "deep": dict(Deposits="{0}", QosSet="{1}", Caps="{1, 3}", Timeouts="{1}", Freqs="{0}", Totals="{2}",
-                     Dts="{1}", Thresholds="{1}", Kinds='{"valid", "bad"}', MaxHeight=4, MaxCtx=2, MaxBatch=2),
+        "thorough": dict(Deposits="{0}", QosSet="{1}", Caps="{1, 3}", Timeouts="{1, 2}", Freqs="{0}", Totals="{2, 3}",
+                         Dts="{1}", Thresholds="{1}", Kinds='{"valid", "bad"}', MaxHeight=6, MaxCtx=1, MaxBatch=3),
     },
 }
 
